@@ -600,7 +600,11 @@ async fn batch(zone: &Zone, c: &mut Content, h: &mut Hist, names: &[String], spe
             ev!("  ABORT");
             sim::stat("fault.writer_abort");
             h.aborts += 1;
-            drop(up);
+            if sim::chance("batch.abort_by_crash", 1, 3) {
+                sim::crash_drop(up);
+            } else {
+                drop(up);
+            }
             if let Some(lc) = last_committed {
                 *c = lc;
             }
@@ -739,7 +743,13 @@ async fn batch(zone: &Zone, c: &mut Content, h: &mut Hist, names: &[String], spe
             ev!("  ABORT");
             sim::stat("fault.writer_abort");
             h.aborts += 1;
-            drop(w);
+            // (Now and then because the writer's task crashes: the handle
+            // goes away during the unwinding of a panic.)
+            if sim::chance("batch.abort_by_crash", 1, 3) {
+                sim::crash_drop(w);
+            } else {
+                drop(w);
+            }
             if let Some(lc) = last_committed {
                 *c = lc;
             }
